@@ -530,7 +530,7 @@ var ruleBCEExec = &Rule{
 			}
 		}
 		out.Counts["index_and_slice_operations"] = nidx
-		out.Floors["index_and_slice_operations"] = 10
+		out.Floors["index_and_slice_operations"] = 3
 		fs, err := p.compilerBCE("./path/exec")
 		if err != nil {
 			out.undecided("compiler prove pass", "-", "", err.Error())
